@@ -161,6 +161,24 @@ pub fn run(ctx: &Ctx) -> CheckResult {
     let mut stats = Stats::default();
     let targets = collect_targets(ctx, &mut stats);
 
+    // ---- every target as it is (no fault): the default decompile and one seed-rotated other command
+    // (thorough: every command).  A well-formed file that makes decompile crash is a violation too,
+    // and compiler outputs of generated programs have shapes the bundled files lack.
+    let mut pristine: Vec<Case> = vec![];
+    for t in targets.iter() {
+        let n = n_commands(t);
+        let ks: Vec<usize> = if quick { vec![0, 1 + (rng::mix(ctx.seed, &t.name, 21) as usize) % (n - 1).max(1)] } else { (0..n).collect() };
+        for k in ks {
+            if k < n {
+                let mut c = target_case(t, k, &[], "");
+                c.name = format!("{} [pristine]", c.name);
+                pristine.push(c);
+            }
+        }
+    }
+    let (_r, st_p, f_p, h_p) = par_map(ctx, &pristine, |w, _, c| w.judge(c));
+    stats.merge(st_p);
+
     // ---- storage corruptions
     let mut work: Vec<(usize, Vec<(usize, Corruption)>)> = vec![];
     let mut n_space = 0usize;
@@ -300,6 +318,8 @@ pub fn run(ctx: &Ctx) -> CheckResult {
     stats.merge(st_cfg);
     findings.extend(f_cfg);
     herr.extend(h_cfg);
+    findings.extend(f_p);
+    herr.extend(h_p);
 
     // ---- read-time faults on the pristine bundled files (every command)
     let bundled: Vec<(usize, usize)> = targets.iter().enumerate().filter(|(_, t)| t.bundled).flat_map(|(ti, t)| (0..n_commands(t)).map(move |k| (ti, k))).collect();
